@@ -82,7 +82,17 @@ func addTime(m map[string]Intrinsic) {
 		return mkEq(timeNs(args[0]), mkBV(64, 0))
 	}
 	m["(time.Time).Add"] = func(vm *VM, fn *ssa.Function, args []Value) Value {
-		return mkTime(mkBVBin("bvadd", timeNs(args[0]), args[1].(*Term)))
+		a, d := timeNs(args[0]), args[1].(*Term)
+		r := mkBVBin("bvadd", a, d)
+		// instants outside int64 unix-ns (years 1678..2262) are outside the time model
+		z := mkBV(64, 0)
+		an, dn, rn := mkBVCmp("bvslt", a, z), mkBVCmp("bvslt", d, z), mkBVCmp("bvslt", r, z)
+		ovf := mkAnd(mkEq(an, dn), mkNot(mkEq(rn, an)))
+		if vm.branch(ovf) {
+			vm.note("time model range exceeded (instant outside years 1678..2262): path excluded")
+			panic(&pathEnd{"time-model-range"})
+		}
+		return mkTime(r)
 	}
 	m["(time.Time).Sub"] = func(vm *VM, fn *ssa.Function, args []Value) Value {
 		return satSub(timeNs(args[0]), timeNs(args[1]))
